@@ -13,6 +13,7 @@ import (
 	"strings"
 	"testing"
 	"time"
+	"unsafe"
 
 	"github.com/KafScale/platform/pkg/acl"
 	"github.com/KafScale/platform/pkg/broker"
@@ -86,6 +87,7 @@ type bnode struct {
 	cancel context.CancelFunc
 	ctx    context.Context
 	reqSeq int
+	pub    int64 // address used for the start -> request happens-before edge (race mode)
 }
 
 type w1 struct {
@@ -172,6 +174,7 @@ func (n *bnode) start() {
 	}
 	n.ctx, n.cancel = context.WithCancel(context.Background())
 	n.h = h
+	simrt.RacePublish(unsafe.Pointer(&n.pub))
 }
 
 func (n *bnode) stop() {
@@ -198,6 +201,7 @@ func (n *bnode) call(req kmsg.Request, clientID string, after func(resp kmsg.Res
 	fut := w.sim.NewFuture(inc)
 	n.reqSeq++
 	w.sim.Spawn(fmt.Sprintf("%s/req%04d", inc, n.reqSeq), inc, false, func() {
+		simrt.RaceObserve(unsafe.Pointer(&n.pub))
 		header, parsed, err := protocol.ParseRequest(payload)
 		if err != nil {
 			fut.Set(fmt.Errorf("parse: %w", err))
@@ -546,6 +550,7 @@ func (w *w1) opForceFlush(op simrt.Op) {
 	fut := w.sim.NewFuture(inc)
 	n.reqSeq++
 	w.sim.Spawn(fmt.Sprintf("%s/flush%04d", inc, n.reqSeq), inc, false, func() {
+		simrt.RaceObserve(unsafe.Pointer(&n.pub))
 		plog, err := h.getPartitionLog(n.ctx, topic, part)
 		if err == nil {
 			_ = plog.Flush(n.ctx)
